@@ -61,6 +61,8 @@ def run_case(ctx, rng, idx):
         import hypergraphx as hgx
 
         n = rng.choice([8, 9, 10] if ctx.tier == "thorough" else [8, 9, 10, 8])
+        if idx == 5:
+            n = 10  # re-confirmation of the open finding (256 hyperedges through one pair) on every run
         base = rng.choice([0, 100])
         nodes = [base + 3 * i for i in range(n)]
         h = hgx.Hypergraph()
